@@ -11,4 +11,7 @@ def run(chk):
     textrules.r01_fmt(chk)
     textrules.r01_hex(chk)
     plumbing.r05_plumb(chk, rule="R01-plumb")
+    from . import c05, writertab
+    c05.r05_adjacent(chk, rule="R01-adjacent")
+    writertab.compare(chk, "R01-writer", floor=54)
     chk.assumptions += ["not decided: equality of the reloaded model and byte identity of the text for all inputs (runtime values)"]
